@@ -2186,7 +2186,9 @@ class HDKey(Key):
                 if index < 0:
                     raise BKeyError("Could not parse path. Index must be a positive integer.")
                 if first_public or not key.is_private:
-                    key = key.child_public(index=index, network=network)  # TODO hardened=hardened key?
+                    if hardened:
+                        raise BKeyError("Cannot derive hardened key from public key. Path item %s' is hardened" % item)
+                    key = key.child_public(index=index, network=network)
                     first_public = False
                 else:
                     key = key.child_private(index=index, hardened=hardened, network=network)
@@ -2293,7 +2295,7 @@ class HDKey(Key):
             network = self.network.name
         if not self.is_private:
             raise BKeyError("Need a private key to create child private key")
-        if hardened:
+        if hardened or index >= 0x80000000:
             index |= 0x80000000
             data = b'\0' + self.private_byte + index.to_bytes(4, 'big')
         else:
@@ -2339,7 +2341,7 @@ class HDKey(Key):
         """
         if network is None:
             network = self.network.name
-        if index > 0x80000000:
+        if index >= 0x80000000:
             raise BKeyError("Cannot derive hardened key from public private key. Index must be less than 0x80000000")
         data = self.public_byte + index.to_bytes(4, 'big')
         key, chain = self._key_derivation(data)
